@@ -67,12 +67,14 @@ def gates(tier):
         "min_decided": {APIS[0]: 15000 * k, APIS[1]: 10000 * k},
         "shapes": {c: 5 * k for c in ["ignore", "no-ignore", "multibyte>=2", "ci-terminal", "regex-terminal", "ebnf:star", "ebnf:plus",
                                       "ebnf:opt", "ebnf:alt", "recursive-rule", "bytes:truncated", "accepted-samples",
-                                      "ci:multichar-case-mapping", "names:suffix-style", "anonymous-literals", "option:charset-set", "option:cnf", "ignored-terminal-in-rule", "ignore:several"]},
+                                      "ci:multichar-case-mapping", "names:suffix-style", "anonymous-literals", "option:charset-set", "option:cnf", "ignored-terminal-in-rule", "ignore:several"]} | {"scale:many-terminals": 2 * k},
         "min_hashseeds": 2,
     }
 
 
 def gen_case(rng, spec):
+    if rng.random() < 0.06:
+        return many_terminals_case(rng, spec)
     nterm = rng.randint(2, 4)
     if rng.random() < 0.6:
         mb = [t for t in TERMS if any(ord(c) > 127 for c in t[1])]
@@ -168,6 +170,39 @@ def gen_case(rng, spec):
             "cnf": rng.random() < 0.2, "maxlen": 3 if spec.get("tier") == "quick" else 4, "sseed": rng.randrange(1 << 30)}
 
 
+OPS = ["<<", ">>", "+=", "-=", "*=", "/=", "&&", "||", "==", "!=", "<=", ">=", "->", "::", "<-", "=>", "++", "--", "<>", "**"]
+
+
+def many_terminals_case(rng, spec):
+    """scale: 11-16 anonymous (or numbered) terminals, so that the names Lark or the user gives them get two digits
+    (__ANON_10 ..., T10 ...) next to the states 0, 1, 2 of the terminals' automata."""
+    from rv.ref import larkref
+
+    ops = rng.sample(OPS, rng.randint(11, 16))
+    if rng.random() < 0.6:
+        text = "start: atom (op atom)*\natom: \"x\" | \"y\" | NAME\nop: " + " | ".join(f'"{o}"' for o in ops) + "\nNAME: /[ab]/\n"
+    else:
+        text = ("start: atom (op atom)*\natom: \"x\" | NAME\nop: " + " | ".join(f"T{i + 1}" for i in range(len(ops))) + "\nNAME: /[ab]/\n"
+                + "".join(f'T{i + 1}: "{o}"\n' for i, o in enumerate(ops)))
+    if rng.random() < 0.4:
+        text += 'WS: " "\n%ignore WS\n'
+    T, _, _ = larkref.compile_lark(text)
+    import re as _re
+
+    examples = {}
+    for name, rx in T.items():
+        if name == "NAME":
+            examples[name] = ["a", "b"]
+        else:
+            lit = _re.sub(r"\\(.)", r"\1", rx)
+            lit = _re.sub(r"^\(\?:(.*)\)$", r"\1", lit)
+            examples[name] = [lit]
+    chars = sorted({c for o in ops for c in o})
+    alphabet = sorted(set(rng.sample(chars, 4)) | {"x", "a"} | ({" "} if "WS" in text else set()))
+    return {"text": text, "alphabet": alphabet, "examples": examples, "charset": None, "decay": 1, "cnf": False,
+            "maxlen": 3, "sseed": rng.randrange(1 << 30), "scale": "many-terminals"}
+
+
 def sample_strings(O, examples, rng, k=25):
     "random derivations of the BNF rules, terminals replaced by example strings (optionally after an ignored match)"
     by_head = {}
@@ -256,6 +291,8 @@ def run_case(case, ctx):
         ctx.shape["accepted-samples"] += sum(1 for s in samples if want[s])
     fp = codec.fingerprint(case)
     nontriv = 0 < acc < len(cands) and bool({"ignore", "multibyte>=2"} & feats)
+    if case.get("scale"):
+        feats.add("scale:" + case["scale"])
     ctx.case(fp, nontriv, sorted(feats))
     ctx.sample({"text": text, "candidates": len(cands), "accepted": acc, "examples": [s for s in cands if want[s]][:6]})
     with warnings.catch_warnings():
